@@ -103,6 +103,37 @@ pub fn c01_oracle(t: &TextTree, text: &str) -> Outcome {
             o.count("empty_range_morphemes", 1);
         }
         o.observe(&toks.iter().map(|t| (t.begin, t.end, t.word_id)).collect::<Vec<_>>());
+        // the usual way to use the library is a reused tokenizer and a reused result list: the
+        // morphemes reported for this text after two earlier analyses must be the same partition
+        if mode == Mode::C {
+            o.evaluations += 1;
+            let r = catch(|| {
+                let mut tok = sudachi::analysis::stateful_tokenizer::StatefulTokenizer::new(dict.clone(), Mode::C);
+                let mut l = MorphemeList::empty(dict.clone());
+                for warm in ["東京都に行く1,000円", "京"] {
+                    tok.reset().push_str(warm);
+                    if tok.do_tokenize().is_ok() {
+                        let _ = l.collect_results(&mut tok);
+                    }
+                }
+                tok.reset().push_str(text);
+                tok.do_tokenize().map_err(|e| classify_err(&e))?;
+                l.collect_results(&mut tok).map_err(|e| classify_err(&e))?;
+                Ok::<_, AErr>(toks_of(&l))
+            });
+            match r {
+                Err(p) => o.fail(Failure::panic(&format!("reused tokenizer {:?}", text), &p)),
+                Ok(Err(e)) => o.fail(Failure::new("reused-tokenizer-differs", format!("[{}] {:?}: a reused tokenizer rejects the text ({:?}), a fresh one accepts it", ctx, text, e))),
+                Ok(Ok(rt)) => {
+                    for f in partition_failures(text, &rt, 0, text.len(), &format!("{} reused tokenizer", ctx)) {
+                        o.fail(f);
+                    }
+                    if toks.is_empty() != rt.is_empty() {
+                        o.fail(Failure::new("empty-iff-normalised-empty", format!("[{} reused tokenizer] {} morphemes for {:?}, a fresh tokenizer gives {}", ctx, rt.len(), text, toks.len())));
+                    }
+                }
+            }
+        }
         // on-demand split of every C morpheme
         if mode == Mode::C {
             for (i, parent) in toks.iter().enumerate() {
@@ -188,6 +219,51 @@ pub fn jobs(tier: Tier, oracle: fn(&TextTree, &str) -> Outcome) -> Vec<Box<dyn A
     jobs
 }
 
+/// inputs around the normalised-length limit: whatever is accepted must still be a partition
+fn long_inputs(world: Arc<World>) -> CaseSpace<(String, usize)> {
+    let mut cases = Vec::new();
+    for (unit, ns) in [("㍿", vec![5455usize, 5460, 5461, 5462, 5463, 8000, 16382]), ("\u{fdfa}", vec![1984, 1985, 1986, 1987, 3000])] {
+        for n in ns {
+            cases.push((unit.to_string(), n));
+        }
+    }
+    let w = world.clone();
+    CaseSpace {
+        label: format!("{}/long-expanding-inputs", world.name()),
+        cases,
+        check_fn: Box::new(move |(unit, n): &(String, usize)| {
+            let mut o = Outcome::new();
+            o.nontrivial = true;
+            for tail in ["京都に行く", ""] {
+                let text = format!("{}{}", unit.repeat(*n), tail);
+                for mode in [Mode::C, Mode::A] {
+                    o.evaluations += 1;
+                    match catch(|| analyze(&w.dict, mode, &text)) {
+                        Err(p) => o.fail(Failure::panic(&format!("{:?} x {} + {:?} mode {}", unit, n, tail, mode_name(mode)), &p)),
+                        Ok(Err(_)) => o.count("rejected", 1),
+                        Ok(Ok(toks)) => {
+                            let ctx = format!("{:?} x {} + {:?} mode {}", unit, n, tail, mode_name(mode));
+                            for mut f in partition_failures(&text, &toks, 0, text.len(), &ctx).into_iter().chain(codepoint_failures(&text, &toks, &ctx)) {
+                                if f.detail.len() > 400 {
+                                    let mut cut = 400;
+                                    while !f.detail.is_char_boundary(cut) {
+                                        cut -= 1;
+                                    }
+                                    f.detail.truncate(cut);
+                                }
+                                o.fail(f);
+                            }
+                            o.observe(&toks.len());
+                        }
+                    }
+                }
+            }
+            o
+        }),
+        describe_fn: Box::new(|(unit, n): &(String, usize)| json!({"unit": unit, "count": n})),
+    }
+}
+
 pub fn main(tier: Tier, replay: Option<String>) -> i32 {
     let mut rep = Report::new("C01", "model_checking", tier);
     rep.rule = "states = all strings over the world's alphabet within the bound (full product up to full_product_len; beyond that at most max_special special symbols); each state is tokenized in modes A,B,C by the real tokenizer and every C morpheme is split on demand; non-trivial = normalised text differs from the input, or an empty-range morpheme or an on-demand split occurred".into();
@@ -195,6 +271,8 @@ pub fn main(tier: Tier, replay: Option<String>) -> i32 {
         "inputs rejected with an error value are outside C01 (counted as 'rejected')".into(),
         "dictionaries are the fabricated worlds of common/worlds.rs compiled by the repository's own DictBuilder".into(),
     ];
-    let jobs = jobs(tier, c01_oracle);
+    let mut jobs = jobs(tier, c01_oracle);
+    let full = Arc::new(World::build(spec_full("W-full", true)).expect("W-full"));
+    jobs.insert(0, job(long_inputs(full), Strategy::Bfs, Some(120), json!({"family": "expanding units around the 65535-byte normalised limit"})));
     drive(rep, jobs, replay)
 }
